@@ -22,6 +22,8 @@ OBLIGATIONS = [
     ob('idiff_roundtrip_days', ['IDIFF', 'DMAX=4000', 'DAYSONLY'], enc=['idiff_strf', 'idiff_strp', 'ui32tostr', 'ilog10_ceil', 'ilog2_ceil'], sym='the number of days', bounds='0 .. 4000 whole days', unwindset=dict(IDP, **{'harness.0': 65, 'sym_load.*': 17})),
     ob('idiff_roundtrip_subday', ['IDIFF', 'SUBDAY'], enc=['idiff_strf', 'idiff_strp', 'ui32tostr', 'ilog10_ceil'], sym='hours, minutes, seconds', bounds='every whole-second duration below one day', unwindset=dict(IDP, **{'harness.0': 65, 'sym_load.*': 17})),
     ob('idiff_roundtrip', ['IDIFF', 'DMAX=4000'], enc=['idiff_strf', 'idiff_strp', 'ui32tostr', 'ilog10_ceil', 'ilog2_ceil'], sym='the duration', bounds='0 .. 4000 days in whole seconds', tiers=('thorough',), timeout=3400, unwindset=dict(IDP, **{'harness.0': 65, 'sym_load.*': 17})),
+    ob('idiff_spellings_cadical', ['SPELL'], solver='cadical', tiers=('probe',), enc=['idiff_strp'], unwindset=dict(IDP, **{'harness.*': 65, 'sym_load.*': 17})),
+    ob('idiff_spellings_cvc5', ['SPELL'], solver='cvc5int', checks=[], tiers=('probe',), enc=['idiff_strp'], unwindset=dict(IDP, **{'harness.*': 65, 'sym_load.*': 17})),
     ob('idiff_spellings', ['SPELL'], enc=['idiff_strp'], sym='15 digits, digit counts, which components are present, leading sign',
        bounds='components of 1..3 digits each (weeks, days, hours, minutes, seconds up to 999)', unwindset=dict(IDP, **{'harness.*': 65, 'sym_load.*': 17})),
     ob('range_roundtrip', ['RANGE'], enc=['range_strf', 'range_strp', 'dt_strf', 'dt_strp'], sym='both instants', bounds='every pair of valid instants'),
